@@ -18,7 +18,7 @@ FLOORS = {'quick': {'reflexive': 300, 'symmetric': 300, 'copy-equal': 300, 'rebu
                     'ne-consistent': 600},
           'thorough': {'differs': 2500}}
 MANDATORY_TAGS = ['mut:coord', 'mut:weight', 'mut:knot', 'mut:degree', 'mut:size', 'mut:rational', 'mut:pdim', 'mut:none', 'mut:hom_w', 'via-copy', 'mixed-precision',
-                  'pdim1', 'pdim2', 'pdim3']
+                  'pdim1', 'pdim2', 'pdim3', 'emptied:reset']
 TECHNIQUE = "runtime monitoring: metamorphic oracle on == / != of live shape objects over generated one-component mutations"
 LEVEL_TEXT = ("Each generated pair is compared in both directions with == and != and against the known difference between the "
               "two definitions; holds on the pairs observed.")
@@ -36,6 +36,8 @@ def gen(rng, tier, shard, nshards):
         sd = G.rand_shape(rng, pdim, rational=rational, clamped_only=True, normalize=(mut != 'knot_unnorm'),
                           maxextra=4)
         yield {'kind': 'pair', 'sd': sd, 'mut': mut, 'seed': rng.randrange(1 << 30)}
+        if i % 4 == 2:
+            yield {'kind': 'emptied', 'sd': G.rand_shape(rng, pdim, clamped_only=True, maxextra=3), 'seed': rng.randrange(1 << 30)}
         if i % 4 == 0:
             # un-normalised so that the knots are stored as given whatever the precision
             sd2 = G.rand_shape(rng, pdim, clamped_only=True, normalize=False, maxextra=4)
@@ -139,9 +141,55 @@ def check_mixed_precision(case, ctx):
               % (pa, pb), what='copy-equal')
 
 
+def check_emptied(case, ctx):
+    """one shape of the pair has lost (or never consistently received) its control points through public calls: they hold different
+    numbers of control points, so they are not equal"""
+    from geomdl.exceptions import GeomdlException
+    rng = random.Random(case['seed'])
+    sd = case['sd']
+    a = G.build(sd)
+    b = copy.deepcopy(a)
+    how = rng.choice(['reset', 'rejected-assignment', 'too-many-points'])
+    ctx.nontriv(True)
+    ctx.tag('emptied:' + how, 'pdim%d' % sd['pdim'])
+    if how == 'reset':
+        b.reset(ctrlpts=True)                       # documented: "resets control points"
+    elif how == 'rejected-assignment':
+        bad = [list(p) for p in b.ctrlptsw] if sd['rational'] else [list(p) for p in b.ctrlpts]
+        bad[-1] = bad[-1][:-1]                      # one point of another dimension: the assignment is refused
+        try:
+            if sd['pdim'] == 1:
+                b.set_ctrlpts(bad)
+            else:
+                b.set_ctrlpts(bad, *sd['sizes'])
+            ctx.count('malformed-net-accepted')
+            return
+        except (ValueError, GeomdlException, IndexError):
+            pass
+    else:
+        if sd['pdim'] == 1:
+            raise Reject()
+        pts = [list(p) for p in (b.ctrlptsw if sd['rational'] else b.ctrlpts)]
+        more = pts + [[c + 1.0 for c in pts[0]]] * rng.randint(1, 3)
+        try:
+            b.set_ctrlpts(more, *sd['sizes'])       # more points than size_u * size_v (* size_w)
+        except (ValueError, GeomdlException, IndexError):
+            ctx.ok('inconsistent-net-refused')
+            return
+    na, nb = len(a.ctrlpts), len(b.ctrlpts)
+    if na == nb:
+        raise Reject()
+    ab, ba = (a == b), (b == a)
+    ctx.check(ab is False and ba is False, 'equal-with-different-point-counts', 'shapes holding %d and %d control points (%s) compare '
+              'a == b: %r, b == a: %r' % (na, nb, how, ab, ba), what='unequal-detected')
+    ctx.check((a != b) == (not ab) and (b != a) == (not ba), 'ne-consistent', '!= is not the negation of ==', what='ne-consistent')
+
+
 def check(case, ctx):
     if case.get('kind') == 'mixed-precision':
         return check_mixed_precision(case, ctx)
+    if case.get('kind') == 'emptied':
+        return check_emptied(case, ctx)
     rng = random.Random(case['seed'])
     sd, mut = case['sd'], case['mut']
     bsd = mutate(sd, mut, rng)
